@@ -335,7 +335,7 @@ def eval_bamsplit(case):
 def parts(tier):
     t = tier == 'thorough'
     return [
-        Part('limiter', eval_limiter, strategy=lambda: history_strategy(200), examples=60000 if t else 3000),
-        Part('fastqhandle', lambda c: eval_limiter(c, through_fastq=True), strategy=lambda: history_strategy(100), examples=20000 if t else 1000),
-        Part('bamsplit', eval_bamsplit, strategy=bamsplit_strategy, examples=6000 if t else 300),
+        Part('limiter', eval_limiter, strategy=lambda: history_strategy(200), examples=120000 if t else 3000),
+        Part('fastqhandle', lambda c: eval_limiter(c, through_fastq=True), strategy=lambda: history_strategy(100), examples=40000 if t else 1000),
+        Part('bamsplit', eval_bamsplit, strategy=bamsplit_strategy, examples=12000 if t else 300),
     ]
